@@ -369,6 +369,12 @@ func (c *Chain[K, E]) WriteChain(store *stor.Stor) (uint64, Chain[K, E]) {
 	}
 	off := c.Write(store, prevOff, lastMod)
 	if off == 0 {
+		if no > 0 && merge == no {
+			// a full flatten with nothing live left to write (every item is a tombstone):
+			// the old chunks, which still hold the deleted items, are abandoned
+			// and the chain becomes empty
+			return 0, Chain[K, E]{Hamt: c.Hamt, Clock: c.Clock + 1}
+		}
 		if no > 0 {
 			off = c.Offs[no-1] // nothing written, return current chain
 		}
